@@ -17,7 +17,11 @@ Import ListNotations.
 Open Scope Z_scope.
 
 (* A commit is acknowledged only if the pointer it replaced names the very version it validated:
-   w_repl records, for every flip, (pointer value replaced, version validated). *)
+   w_repl records, for every flip, (pointer value replaced, version validated).
+   (In `step`, EValidate sets a_cur := v and a_etag := v at once: that the ETag handed to the commit point and the validated
+   version come from ONE pointer read is not proved here -- it is the data-flow check of translator/gen_commit.py, which
+   fails closed when the ETag has another origin or `current` is not derived from that read's bytes, and what the
+   harness projection demands of every observed run.) *)
 Theorem C08_ack_implies_validated : forall c m0 kind mr evs, cas c = true ->
   let w := run c (init_world m0 kind mr) evs in
   Forall (fun p => fst p = snd p) (w_repl w).
